@@ -4,7 +4,7 @@
    breaks the corresponding proof here (and with it the property theorems restated on the source functions in
    Props/C10.v and Props/C12.v). *)
 From Coq Require Import ZArith QArith Qabs.
-From LV Require Import Model.Bezier Model.Winding Model.LineInter Gen.Functions.
+From LV Require Import Model.Bezier Model.Winding Model.LineInter Model.Sources Gen.Functions.
 Open Scope Q_scope.
 
 (* ---- LineSegment *)
@@ -123,4 +123,8 @@ Proof. intros; repeat split; reflexivity. Qed.
 
 (* ---- hit_test.rs: the per-segment step of the winding number *)
 Lemma src_test_segment_is_model p a b w : src_test_segment p (mkLine a b) w = test_segment p a b w.
+Proof. reflexivity. Qed.
+
+(* ---- fill.rs: remap_t_in_range (C07), exact arithmetic *)
+Lemma src_remap_t_in_range_is_model val s e : src_remap_t_in_range val s e = Model.Sources.remap_t_in_range val s e.
 Proof. reflexivity. Qed.
